@@ -9,10 +9,12 @@ package c01
 import (
 	"encoding/json"
 	"fmt"
+	"github.com/blevesearch/bleve/v2/index/scorch"
 	"os"
 	"sort"
 	"sync"
 	"time"
+	"verif/harness/internal/sx"
 
 	bleve "github.com/blevesearch/bleve/v2"
 
@@ -295,6 +297,47 @@ func run(c *core.Ctx) error {
 	close(jobs)
 	wg.Wait()
 	c.Traces(len(behs))
+	// Phase 2, one replay at a time: the persister is held back at the top of its loop until
+	// a few more batches were introduced (or 40 ms passed), so that with unsafe batches it
+	// takes snapshots holding several in-memory segments with deletions - the in-memory merge
+	// of several workers (ScorchDisk: PMMWrite) runs on every history, not by luck
+	{
+		rec := sx.NewRecorder("")
+		rec.Gate = func(point string, hit int, s *scorch.Scorch) {
+			if point == "persist.loop" {
+				rec.WaitEvent("IntroSegment", 5, 150*time.Millisecond)
+			}
+		}
+		rec.Install()
+		n := 0
+		for bi, steps := range behs {
+			if n >= c.Pick(40, 200) {
+				break
+			}
+			writes := 0
+			for _, s := range steps {
+				if s.Name == "single" || s.Name == "exec" {
+					writes++
+				}
+			}
+			if writes < 4 {
+				continue
+			}
+			n++
+			f, err := replayOne(c, bx.ScorchWorkers3, behs[bi])
+			c.Eval(1)
+			if err != nil && firstErr == nil {
+				firstErr = err
+			}
+			if f != nil {
+				f.Config += " (persister held back)"
+				report(c, f)
+			}
+		}
+		scorch.VerifHook = nil
+		c.Extra("replays_with_the_persister_held_back", n)
+		c.Extra("in_memory_merges_during_those_replays", rec.Count("MemMergeIntroduced"))
+	}
 	// row level of upsidedown (Upsidedown.tla): dictionary counts, back index
 	// rows, cached count, no stale rows of older versions
 	if _, ok := c.ModelCheck("Upsidedown", "Upsidedown_mc.cfg", core.Workers(4), core.Timeout(10*time.Minute)); ok && len(rowRecords) > 0 {
